@@ -131,6 +131,14 @@ has no such form) -/
 theorem merge_base_no_others (g : Dag) (q : PQ Key) (wsOrder : List (Nat × Key) → List (Nat × Key))
     (n a : Nat) : mergeBase g q wsOrder n a [] = .ok (some [a]) := rfl
 
+/-- A re-used `Graph`: whatever flags earlier queries left behind — including queries that were
+aborted part-way by a lookup error — the answer is the one on a fresh graph, because the flags are
+cleared before painting starts. (The harness provokes such aborted queries on the real code with an
+object store that fails once, and compares the following queries with git / the brute-force set.) -/
+theorem merge_base_ignores_stale_flags (g : Dag) (q : PQ Key) (wsOrder : List (Nat × Key) → List (Nat × Key))
+    (n : Nat) (old : FlagMap) (a : Nat) (bs : List Nat) :
+    mergeBaseOn g q wsOrder n old a bs = mergeBase g q wsOrder n a bs := rfl
+
 /-- never a panic, never out of fuel -/
 theorem terminates {g : Dag} {nodes : List Nat} (hrepo : Repo g nodes) {q : PQ Key} (hq : q.Lawful)
     {wsOrder : List (Nat × Key) → List (Nat × Key)} (hws : ∀ l, (wsOrder l).Perm l)
